@@ -24,6 +24,12 @@ pub mod c09;
 #[cfg(feature = "full")]
 pub mod c10;
 #[cfg(feature = "full")]
+pub mod c11;
+#[cfg(feature = "full")]
+pub mod c13;
+#[cfg(feature = "full")]
+pub mod c18;
+#[cfg(feature = "full")]
 pub mod c19;
 #[cfg(feature = "full")]
 pub mod common;
@@ -172,6 +178,9 @@ pub fn run_case(case: &mut Case) {
         "C08" => c08::run_case(case),
         "C09" => c09::run_case(case),
         "C10" => c10::run_case(case),
+        "C11" => c11::run_case(case),
+        "C13" => c13::run_case(case),
+        "C18" => c18::run_case(case),
         "C19" => c19::run_case(case),
         p => panic!("unknown property {}", p),
     }
